@@ -34,6 +34,26 @@ type Seed struct {
 	FI     FI  // a frame description that matches the stream
 	HdrLen int // bytes up to and including the last header byte before entropy-coded data
 	Small  bool
+	CostMs int64 // measured decode time of the valid stream on its first home entry point
+}
+
+// MeasureSeeds runs every seed once (in the children) to learn its decode cost.
+func MeasureSeeds(seeds []*Seed, workers int) {
+	cs := make([]Case, len(seeds))
+	for i, s := range seeds {
+		cs[i] = Case{Entry: s.Home[0], Data: s.Data, Seed: s.Name, Mut: "valid", Fam: s.Fam}
+		if entryByName[s.Home[0]].Codec {
+			f := s.FI
+			cs[i].FI = &f
+		}
+	}
+	res := RunCases(runCfg{Workers: workers, Timeout: watchdog, ASLimit: asLimit}, cs)
+	for i := range seeds {
+		seeds[i].CostMs = res[i].Ms
+		if res[i].Status == "timeout" {
+			seeds[i].CostMs = watchdog.Milliseconds()
+		}
+	}
 }
 
 const maxInput = 64 << 10
